@@ -12,7 +12,7 @@ Per element kind K (dataspace, datatype, layout, attribute, superblock, ...):
 A disagreement is classified with the Python oracle: Go violates decode(encode x) = x  => VIOLATION with
 the failing value; Go != model but the round trip holds => search more values, then `nofail`.
 """
-import json, os
+import json, os, re
 import vlib
 
 TRUSTED = ["C11: the encoders/decoders are hand-transcribed into Gallina (Model/Codec*.v); the tie compares encoder bytes and "
@@ -68,6 +68,28 @@ def chex(h):
     return '"%s"' % h
 
 
+_RUN = re.compile(r"((?:00){48,}|(?:61){48,}|(?:ff){48,}|(?:7a){48,})")
+
+
+def cbytes(h):
+    """hex string -> Coq term of type bytes.  Long runs of one byte become `repeat`, literals are cut
+    into pieces (the Coq front end overflows its stack on very long string literals and reads ~10 kB/s)."""
+    parts = []
+    for seg in _RUN.split(h):
+        if not seg:
+            continue
+        if _RUN.fullmatch(seg):
+            parts.append("repeat %d (N.to_nat %d)" % (int(seg[:2], 16), len(seg) // 2))
+        else:
+            for k in range(0, len(seg), 4000):
+                parts.append('unhex "%s"' % seg[k:k + 4000])
+    if not parts:
+        return "(@nil N)"
+    if len(parts) == 1:
+        return "(%s)" % parts[0]
+    return "(" + " ++ ".join(parts) + ")%list"
+
+
 def cval(v):
     """canonical VAL (python: int | hex str | list) -> Coq term of type val"""
     if isinstance(v, bool):
@@ -75,7 +97,7 @@ def cval(v):
     if isinstance(v, int):
         return "(VN %s)" % cn(v)
     if isinstance(v, str):
-        return '(VB (unhex "%s"))' % v
+        return "(VB %s)" % cbytes(v)
     return "(VL [" + ";".join(cval(x) for x in v) + "])"
 
 
@@ -143,7 +165,7 @@ class Dataspace(Kind):
     def wf_expr(self, x):
         return "wf_dataspace " + self.coq(x)
     def dec_expr(self, hexs, sb):
-        return "oval val_dataspace' (dec_dataspace (unhex %s))" % chex(hexs)
+        return "oval val_dataspace' (dec_dataspace %s)" % cbytes(hexs)
     def proj(self, x):
         return [1, 1, list(x["dims"]), [list(x["maxdims"])] if x["maxdims"] else []]
     def shape(self, x):
@@ -179,7 +201,7 @@ class Layout(Kind):
     def wf_expr(self, x):
         return "wf_layout %s %s" % (csb(x["_sb"]), self.coq(x))
     def dec_expr(self, hexs, sb):
-        return "oval val_layout' (dec_layout %s (unhex %s))" % (csb(sb), chex(hexs))
+        return "oval val_layout' (dec_layout %s %s)" % (csb(sb), cbytes(hexs))
     def proj(self, x):
         ks = 8 if x["_sb"]["v"] >= 4 else 4
         if x["class"] == 1:
@@ -278,8 +300,8 @@ class DatatypeK(Kind):
                 mk(10, 4), mk(8, 4), mk(2, 4), mk(4, 4), mk(11, 4), mk(5, 0, "61"), mk(6, 0, "61"), mk(9, 0, "")]
 
     def coq(self, x):
-        return "{| dt_class := %d; dt_version := %d; dt_size := %s; dt_cbf := %s; dt_props := unhex %s |}" % (
-            x["class"], x["version"], cn(x["size"]), cn(x["cbf"]), chex(x["props"]))
+        return "{| dt_class := %d; dt_version := %d; dt_size := %s; dt_cbf := %s; dt_props := %s |}" % (
+            x["class"], x["version"], cn(x["size"]), cn(x["cbf"]), cbytes(x["props"]))
     def enc_expr(self, x):
         return "enc_datatype " + self.coq(x)
     def encok_expr(self, x):
@@ -287,7 +309,7 @@ class DatatypeK(Kind):
     def wf_expr(self, x):
         return "wf_datatype " + self.coq(x)
     def dec_expr(self, hexs, sb):
-        return "oval val_datatype (dec_datatype (unhex %s))" % chex(hexs)
+        return "oval val_datatype (dec_datatype %s)" % cbytes(hexs)
     def proj(self, x):
         c, size, cbf = x["class"], x["size"], x["cbf"]
         if c in (0, 1):
@@ -327,7 +349,50 @@ class DatatypeVlen(DatatypeK):
         return [v[0], v[2], v[3], v[4]] == [9, x["size"], x["cbf"], x["props"]]
 
 
-KINDS = [Dataspace(), Layout(), DatatypeK(), DatatypeVlen()]
+class AttributeK(Kind):
+    name = "attribute"
+    imports = "Model.CodecMsg Model.CodecType Model.CodecAttr"
+    uses_sb = True
+    NAMELEN = [1, 2, 7, 8, 9, 254, 255, 256, 257, 1000, 65534]
+
+    def __init__(self):
+        self.dtk, self.dsk = DatatypeK(), Dataspace()
+
+    def gen(self, rng, i):
+        nl = self.NAMELEN[i] if i < len(self.NAMELEN) else rng.choice([1, 2, 3, 5, 8, 13, 16, 31, rng.randint(1, 64)])
+        name = rbytes(rng, nl, nonzero=rng.random() < 0.7) if nl < 300 else rbytes(rng, 3, True) + b"a" * (nl - 6) + rbytes(rng, 3)
+        dt = self.dtk.gen(rng, rng.randrange(9))
+        ds = self.dsk.gen(rng, 1000)
+        if len(ds["dims"]) > 6:
+            ds = dict(dims=ds["dims"][:3], maxdims=ds["maxdims"][:3])
+        data = rbytes(rng, rng.choice([0, 0, 1, 4, 8, 16, rng.randint(0, 48)]))
+        return dict(_sb=dict(v=2, o=8, l=8, be=False), name=name.hex(), dt=dt, dims=ds["dims"], maxdims=ds["maxdims"], data=data.hex())
+
+    def invalid(self, rng):
+        ok = self.gen(rng, 20)
+        a = dict(ok, name="")
+        b = dict(ok, dims=[])
+        c = dict(ok, dt=dict(ok["dt"], **{"class": 0, "size": 3}))
+        return [a, b, c]
+
+    def coq(self, x):
+        return "{| at_name := %s; at_dt := %s; at_ds := %s; at_data := %s |}" % (
+            cbytes(x["name"]), self.dtk.coq(x["dt"]), self.dsk.coq(x), cbytes(x["data"]))
+    def enc_expr(self, x):
+        return "enc_attribute " + self.coq(x)
+    def encok_expr(self, x):
+        return "encok_attribute " + self.coq(x)
+    def wf_expr(self, x):
+        return "wf_attribute " + self.coq(x)
+    def dec_expr(self, hexs, sb):
+        return "oval val_attribute' (dec_attribute %s %s)" % ("true" if sb and sb["be"] else "false", cbytes(hexs))
+    def proj(self, x):
+        return [x["name"], self.dtk.proj(x["dt"]), self.dsk.proj(x), [x["data"]] if x["data"] else []]
+    def shape(self, x):
+        return "name=%d,class=%d,rank=%d,data=%d" % (len(x["name"]) // 2, x["dt"]["class"], len(x["dims"]), len(x["data"]) // 2)
+
+
+KINDS = [Dataspace(), Layout(), DatatypeK(), DatatypeVlen(), AttributeK()]
 
 # kinds whose encoder/decoder pair is known not to round-trip: id of the KNOWN_FINDINGS entry
 KNOWN_ROUNDTRIP = {"datatype_vlen": "C11-vlen-datatype-header"}
@@ -415,7 +480,7 @@ def run(ctx):
             if not K.rt_ok(x, got):
                 rt_bad.append((x, r, want, got))
             # gate 1: bytes vs model, and wf must hold for every generated value
-            exprs.append(("enc", "enc_agrees (%s) %s" % (K.enc_expr(x), chex(r["enc"])), (x, r)))
+            exprs.append(("enc", "bytes_eqb (%s) %s" % (K.enc_expr(x), cbytes(r["enc"])), (x, r)))
             if K.wf_expr(x):
                 exprs.append(("wf", K.wf_expr(x), (x, r)))
             # model decoder on the Go bytes gives the Go decoder's result
